@@ -10,7 +10,8 @@ MUT_DIR = os.path.join(extract.VERIF, "mutants")
 SEEDED_DIR = os.path.join(extract.VERIF, "seeded")
 
 
-def make_scratch(slot="s0"):
+def make_scratch(slot=None):
+    slot = slot or "p%d" % os.getpid()
     dst = os.path.join(SCRATCH, slot, "repo")
     if os.path.isdir(dst):
         shutil.rmtree(dst)
@@ -24,7 +25,8 @@ def make_scratch(slot="s0"):
     return dst
 
 
-def drop_scratch(slot="s0"):
+def drop_scratch(slot=None):
+    slot = slot or "p%d" % os.getpid()
     shutil.rmtree(os.path.join(SCRATCH, slot), ignore_errors=True)
 
 
@@ -85,7 +87,8 @@ def load_mutants(prop=None):
     return out
 
 
-def test_mutant(m, slot="s0", verbose=False):
+def test_mutant(m, slot=None, verbose=False):
+    slot = slot or "p%d" % os.getpid()
     repo = make_scratch(slot)
     try:
         if not apply_mutant(repo, m):
